@@ -46,7 +46,19 @@ MANIFEST_ENTRY = {
             "rejected_calls_erasable), and inplace_eq_copy is lifted to every finite history incl. rejected calls (mirror_history: in-place calls "
             "replaced by copying calls and vice versa end in the same dataset). Tie: every history is run a second time on the real classes in the "
             "mirrored variant and compared after every call (predicate inplace-vs-copy-history), a reject stream runs every rejection reason of every "
-            "operation (invalid component last) inside histories of valid calls, public signatures / defaults / property setters / registry are pinned.",
+            "operation (invalid component last) inside histories of valid calls, public signatures / defaults / property setters / registry are pinned. "
+            "Growth 6 (Props/C03Ext.lean, Model/DatasetAbs.lean): every history, raising calls included, refines to the calibration SKELETON machine - the same "
+            "state machine on value-free datasets: class, shape, dtype kind, origin, sampling, units and which calls raise (with which error) never depend on the "
+            "array values (step_forget, outcome_value_free, run_forget, skeleton_history_spec); calls that add nothing (pad to a shape nowhere larger / by 0, "
+            "bin by 1 on any axes) are identities on shape and calibration in both variants (pad_noop, bin_by_one_noop); a[::-1] and a[::-k] for EVERY axis "
+            "length start at the last index, read inside the axis and carry step -1 / -k into the sampling (reversed_slice, neg_step_slice), n-1 / -1 / -n vs "
+            "n / -n-1 as integers and list entries (last_index_and_length). Fixed blocks independent of the seed: signed-index (negative / last / == length "
+            "integers, reversed and negatively stepped slices with negative bounds, step +-length, lists with negative entries; full product on a H>W Dataset2d, "
+            "one varying axis with Ellipsis positions on W>H / 3-D / 4-D bases, reversed datasets carried on through bin / crop / pad / resample / a second "
+            "negative step, an axis of length 300), narrow-dtype (int8 / uint8 / int16 / uint16 / bool at the ends of the range: block sums beyond the dtype), "
+            "noop (pad to the same shape, crop by 0, bin by 1, resample to the same shape, copies, the read-only surface: result followed / kept aside and then "
+            "changed in place; fresh_probe writes through every public route into result and source and requires the other one bit-identical), two-live "
+            "(two Dataset4dstem of equal shape and calibration, attached dp_mean / dp_max / dp_median interleaved: each container hands out ITS pattern).",
     "note": "Trusted: Lean kernel + propext/Classical.choice/Quot.sound; NumPy indexing/pad/sum/reshape are modelled (gather "
             "semantics) and only sampled; aliasing is modelled at reference level (which cells are shared), cell contents only as abstract tokens; array values after fourier_resample are not tracked here (C06); "
             "the attach=True side effect of get_dp_*/get_virtual_image (caches on the container) is not in the model: that the attached "
@@ -59,7 +71,10 @@ MANIFEST_ENTRY = {
             "pad(**kwargs) other than the default zero padding, complex / NaN calibration values and the `metadata` / `file_path` attributes are not modelled; "
             "that a rejected call leaves the object untouched is a theorem about the model and, on the code, a correspondence comparison "
             "(receiver compared after every rejected call) plus the mirror-history predicate - the statement itself only speaks through its "
-            "in-place == copying clause.",
+            "in-place == copying clause. Growth 6: that calls which change nothing keep the array VALUES is measured (noop stream), the theorems speak about shape / "
+            "calibration / kind; crop by 0 and fourier_resample to the same shape have no no-op theorem (measured); the read-only surface (__repr__, __str__, dtype, "
+            "device, metadata, file_path, mean / min / max) is modelled as a call that changes nothing and compared, not part of a predicate; values of attached "
+            "diffraction patterns are checked only where no element write lies between attaching and reading (the cache key of the code does not see element writes).",
     "technique": "Lean 4 proof (invariant by induction over op lists; index-map lemmas) + model-vs-implementation correspondence",
 }
 RULE = ("a case is one operation applied to a dataset state inside a history; distinct non-trivial = distinct "
@@ -80,6 +95,9 @@ ASSUMPTIONS = [
     "normalises the memory layout and float summation order follows the layout; integer / bool data, dtype, shape and calibration are compared bit by bit",
     "mirror history: the second object is built from the same request and advanced by the same public calls in the other variant; "
     "element writes into its array go through a writable copy when its buffer is read-only",
+    "fresh_probe / two-live are evaluated on the real objects only (no model): independence of source and returned dataset is tested by effect - element writes, "
+    "augmented assignments on origin / sampling, a units entry, in-place bin(1) / pad(0) / crop(0) on one object, bit-identical snapshot of the other",
+    "narrow-dtype block: values at the ends of the dtype range (int8 100..127 and -128.., uint8 200..255, int16 30000..32767, uint16 60000..65535, bool all True); the model sums exactly",
     "index expressions hold at most one list in the valid stream; for two-list expressions (outside the quantifier) only the fact that both model and implementation raise is compared",
 ]
 EXPLANATION = ("Theorems in Props/C03.lean are about Model/Dataset.lean (+ Model/NdIndex.lean, Model/Resample.lean); every run "
@@ -700,6 +718,15 @@ def apply_op(ds, op, inplace=None):
     k = op["op"]
     if k == "copy":
         return ds.copy() if op.get("custom", True) else ds.copy(copy_custom_attributes=False)
+    if k == "read":
+        # the read-only public surface (summaries, derived properties, reductions): modelled as a call that changes nothing
+        repr(ds), str(ds), ds.dtype, ds.device, ds.metadata, ds.file_path, ds.name, ds.signal_units, ds.shape, ds.ndim
+        if ds.array.size:
+            with np.errstate(all="ignore"):
+                ds.mean(), ds.mean(axes=0), ds.mean(axes=tuple(range(ds.ndim)))
+                if ds.array.dtype.kind != "c":
+                    ds.min(), ds.max(), ds.min(axes=-1), ds.max(axes=(0,))
+        return None
     if k == "touch":
         ds.name = "renamed"
         ds.signal_units = "counts"
@@ -1648,6 +1675,7 @@ def run_signed_index(ctx, drv):
         [{"op": "crop", "widths": [[1, -1]], "axes": {"one": -1}, "inplace": True}, {"op": "resample", "arg": {"out": [7]}, "axes": {"one": 0}, "inplace": True}],
         [{"op": "pad", "arg": {"pair": [1, 2]}, "inplace": False, "follow": True}, {"op": "resample", "arg": {"f1": "1/2"}, "axes": None, "inplace": False, "follow": True}],
         [{"op": "copy", "follow": True}, {"op": "elem", "what": "sampling*=2"}, {"op": "getitem", "ix": [{"i": -1}], "follow": True}],
+        [{"op": "read", "model": {"op": "touch"}}, {"op": "copy", "follow": True}, {"op": "read", "model": {"op": "touch"}}],
     ]
     for cls, sh in (("Dataset2d", [6, 4]), ("Dataset3d", [4, 6, 5])):
         new = base_req(cls, sh, "int32", layout="ro")
@@ -1737,6 +1765,7 @@ def noop_calls(shape):
         ("copy", {"op": "copy"}),
         ("copy:plain", {"op": "copy", "custom": False}),
         ("getitem:list-all", {"op": "getitem", "ix": [{"l": list(range(shape[0]))}]}),
+        ("read", {"op": "read", "model": {"op": "touch"}}),
     ]
 
 
@@ -1814,7 +1843,8 @@ def run_noop(ctx, drv):
             for h in (h1, h2):
                 run_history(ctx, drv, new, h, stream="noop", max_ops=len(h))
                 n += 1
-            fresh_probe(ctx, new, reason, op)
+            if reason != "read":
+                fresh_probe(ctx, new, reason, op)
     ctx.dist["noop:histories"] += n
 
 
@@ -1927,6 +1957,18 @@ def stream_signatures(ctx):
         prop = getattr(qd.Dataset, attr, None)
         if not (isinstance(prop, property) and prop.fset is not None):
             ctx.disagree("signature", {"attribute": attr}, "property with setter", str(type(prop).__name__), note="public attribute is no longer a validated property")
+    # construction that bypasses from_array: either refused, or the object is coherent like any other
+    for cname, shp in (("Dataset", (3,)), ("Dataset2d", (2, 3)), ("Dataset3d", (2, 3, 2)), ("Dataset4d", (2, 1, 2, 3)), ("Dataset4dstem", (1, 2, 2, 3))):
+        ctx.count()
+        try:
+            with warnings.catch_warnings():
+                warnings.simplefilter("ignore")
+                obj = getattr(qd, cname)(np.zeros(shp), "direct", 0.0, 1.0, "pixels")
+        except Exception:  # noqa
+            ctx.dist["signature:direct-constructor-refused"] += 1
+            continue
+        ctx.dist["signature:direct-constructor-accepted"] += 1
+        check_coherent(ctx, obj, {"new": {"cls": cname, "direct": list(shp)}, "ops": [{"op": "new"}], "probe": "direct-constructor"}, "directly constructed dataset")
     ctx.count()
     reg = {int(k): v.__name__ for k, v in qd.Dataset._registry.items()}
     if reg != {2: "Dataset2d", 3: "Dataset3d", 4: "Dataset4d"}:
@@ -1972,6 +2014,9 @@ def replay(ctx, rep):
     from qv.driver import Driver
     case = rep.get("case") or (rep.get("correspondence_disagreements") or rep.get("disagreements") or [{}])[0].get("case")
     if not case:
+        return True
+    if case.get("probe") == "direct-constructor":
+        stream_signatures(ctx)
         return True
     if case.get("probe") == "two-live":
         run_two_live(ctx)
